@@ -127,7 +127,7 @@ theorem c10_reply_valid (sid nonce enc rand4 cert : Bytes) (hs : sid.length = 32
 /-! ## 3. Application data -/
 
 theorem gen_tlsTooLong (n : Nat) : tlsTooLong n = decide (16640 < n) := by
-  unfold tlsTooLong; rw [Bool.eq_iff_iff]; simp only [decide_eq_true_eq]; omega
+  unfold tlsTooLong; gen_bool
 
 /-- what one `TLSConn.Write` puts on the wire, in front of whatever follows -/
 theorem tlsWrite_shape (inp out : Bytes) (h : tlsWrite inp = some out) (rest : Bytes) :
